@@ -34,7 +34,7 @@ FLAGS = ["--big-stack", "--code", "--credits", "--data", "--help", "--init", "--
          "--quiet", "--stdout", "--throttle", "--verbose", "--version", "--warn-octal-off", "--warn-return-off", "assemble",
          "debug", "disassemble", "preprocess", "-h", "-v", "-q"]
 ODD = ["0", "000", "--throttle=0", "--throttle=00", "--", "-", "--throttle=5", "--throttle=", "--throttle=abc", "--throttle=-1", "--throttle5", "--init=r1=5", "--init=",
-       "--init=zz", "--init==5", "--init=r1=1, =2", "--init=r=5", "--init=R=", "--init=,", "--initx", "--bogus", "-x", "-hq", "--HELP", "5", "abc", "r1=5", "r1=5,r2=0x10", "R0=1", "r1=70000", "",
+       "--init=zz", "--init=r0=zzz", "--init=R0=70000", "--init=r2=7, r0=", "--init=r00=-40000", "--init=r0=1", "--init==5", "--init=r1=1, =2", "--init=r=5", "--init=R=", "--init=,", "--initx", "--bogus", "-x", "-hq", "--HELP", "5", "abc", "r1=5", "r1=5,r2=0x10", "R0=1", "r1=70000", "",
        " ", "--throttle=007", "--init=r1=5 r2=6", "p.hera", "q.hera", "--no-color=1", "assemble=1"]
 
 
@@ -51,7 +51,7 @@ def gen_argv(rng):
             f = rng.choice(FLAGS)
             argv.append(f)
             if f in ("--throttle", "--init") and rng.random() < 0.7:
-                argv.append(rng.choice(["0", "5", "000", "", "r1=5", "abc", "=5", "r1=1, =2", "r=5", "=", ",", "r1=5,", "r" + "1" * 4400 + "=1"]))
+                argv.append(rng.choice(["0", "5", "000", "", "r1=5", "abc", "r0=zzz", "R0=70000", "r1=1 r0=x", "r0=5", "=5", "r1=1, =2", "r=5", "=", ",", "r1=5,", "r" + "1" * 4400 + "=1"]))
         elif r < 0.8:
             argv.append(rng.choice(ODD))
         else:
@@ -111,6 +111,57 @@ FIXED_MAIN = [("good", ["assemble", "P"]), ("data", ["assemble", "--big-stack", 
               ("unwritable", ["assemble", "P"]), ("bad", ["assemble", "P"]), ("missing", ["preprocess", "P"]),
               ("notdir", ["P"]), ("toolong", ["assemble", "P"]), ("badinclude", ["P"]), ("notdir", ["disassemble", "P"]),
               ("dir", ["debug", "P"]), ("nonascii", ["preprocess", "P"])]
+
+
+INIT_ALIASES = {"rt", "fp", "sp", "pc_ret", "fp_alt"}
+
+
+def init_ok(s):
+    """The documented form of an --init value, written independently of parse_init_string: assignments separated by
+    commas and/or white space, each `<register>=<integer>`, the register one of R0..R15 (any case, leading zeros) or
+    an alias, the integer a Python-style literal in [-32768, 65536) — for every assignment, R0 included."""
+    for tok in s.replace(",", " ").split():
+        if "=" not in tok:
+            return False
+        lhs, rhs = tok.split("=", 1)
+        l = lhs.lower()
+        if l not in INIT_ALIASES:
+            if not l.startswith("r"):
+                return False
+            try:
+                v = int(l[1:])
+            except ValueError:
+                return False
+            if not 0 <= v < 16:
+                return False
+        try:
+            val = int(rhs, 0)
+        except ValueError:
+            return False
+        if not -32768 <= val < 65536:
+            return False
+    return True
+
+
+def init_values(argv):
+    """the --init values an argument vector carries (both spellings), up to a bare --"""
+    out = []
+    i = 0
+    while i < len(argv):
+        a = argv[i]
+        if a == "--":
+            break
+        if a == "--init" and i + 1 < len(argv):
+            out.append(argv[i + 1])
+            i += 2
+            continue
+        if a == "--throttle":
+            i += 2
+            continue
+        if a.startswith("--init=") or (a.startswith("--init") and a != "--init" and not a.startswith("--init=")):
+            out.append(a[len("--init="):])
+        i += 1
+    return out
 
 
 def main_oracle(rng, root, fixed=None):
@@ -276,6 +327,11 @@ def correspondence(ctx, model_available=True):
         elif r["kind"] == "run" and documented_incompatibility(a):
             spec_failures.append({"what": "hera %s is accepted (mode %r) although %s does not belong to that mode: a usage error "
                                           "(status 1) is documented" % (" ".join(a), r["mode"], documented_incompatibility(a)), "argv": a})
+        elif r["kind"] == "run" and init_values(a) and not init_ok(init_values(a)[-1]):
+            # (a later --init replaces an earlier one: the value in force is the last)
+            spec_failures.append({"what": "hera %s is accepted although its --init value %r is ill-formed or out of range: a usage "
+                                          "error (status 1) is documented" % (" ".join(x[:40] for x in a), init_values(a)[-1][:60]),
+                                  "argv": [x[:60] for x in a]})
         elif r["kind"] == "usage" and (r["out"] or not r["err"]):
             spec_failures.append({"what": "usage error for %r: stdout %r stderr %r" % (a, r["out"][:60], r["err"][:60]), "argv": a})
     # the two value syntaxes of --throttle (and of --init) name the same run
